@@ -76,7 +76,10 @@ static void SCPI_ErrorEmitEmpty(scpi_t * context) {
  * @param err Error to emit
  */
 static void SCPI_ErrorEmit(scpi_t * context, int16_t err) {
-    SCPI_RegSetBits(context, SCPI_REG_STB, STB_QMA);
+    /* a service request handler called for the ESR bit of this error may have emptied the queue already */
+    if (SCPI_ErrorCount(context) > 0) {
+        SCPI_RegSetBits(context, SCPI_REG_STB, STB_QMA);
+    }
 
     if (context->interface && context->interface->error) {
         context->interface->error(context, err);
